@@ -201,6 +201,10 @@ func (v *RuleVistor) Process(node *Node) {
 			}
 			// prec sym
 			if ruledef.PrecSym != "" {
+				// a name after %prec must be declared like any other symbol (a literal declares itself)
+				if v.idsymtabl[ruledef.PrecSym] == nil && !TestPrefix(ruledef.PrecSym) {
+					panic("It's not define symbol " + ruledef.PrecSym)
+				}
 				precIdsym := v.preMap[ruledef.PrecSym]
 				r.PrecIdSym = precIdsym
 			}
